@@ -91,7 +91,12 @@ def deductive(res, agg):
         bad = [p_ for p_ in ps if p_.kind == "raise" and isinstance(p_.exc, (KeyError,))]
         for p_ in unsup[:1]:
             agg.vc(name, "within-supported-subset", {"status": "undecided", "residue": f"{p_.exc} {p_.tb[-3:]}"}, "")
-        if ret or bad or not unsup:
+        other = [p_ for p_ in ps if p_.kind == "raise" and not isinstance(p_.exc, (KeyError,))]
+        if not ret and not bad and other:
+            # the traced function raised something that is not about names (e.g. it now needs a part of the model the
+            # harness does not provide): nothing can be said about names
+            agg.vc(name, "within-supported-subset", {"status": "undecided", "residue": f"{type(other[0].exc).__name__}: {other[0].exc} {other[0].tb[-2:]}"}, "")
+        elif ret or bad or not unsup:
             agg.vc(name, "runs with fresh sample/feature dimension names (no reliance on the defaults)",
                    struct_vc(bool(ret) and not bad, "; ".join(f"{type(p_.exc).__name__}: {p_.exc}" for p_ in bad[:2])), "")
         for p_ in ret:
@@ -134,7 +139,7 @@ class _Tok(str):
     """an opaque parameter value: stands for every value the user may pass"""
 
 
-ASPECTS = {"names": ("sample_name", "feature_name"), "solver": ("solver", "random_state", "solver_kwargs", "compute"), "deferral": ("compute",),
+ASPECTS = {"names": ("sample_name", "feature_name"), "solver": ("solver", "random_state", "solver_kwargs", "compute"), "deferral": ("compute",), "rescaling": ("standardize", "use_coslat"),
            "preprocessing": ("n_modes", "center", "standardize", "use_coslat", "check_nans")}
 
 
